@@ -47,3 +47,26 @@ pub fn map_vec_advanced_records_result() {
     assert!(bufs[0].len() == if n > 2 { 2 } else { n });
     assert!(bufs[1].len() == n - bufs[0].len());
 }
+
+/// the (payload, control) forms used by recvmsg-style operations — 3-tuple and 4-tuple results, scalar and vectored
+/// payload: the PAYLOAD length is recorded in the payload buffer and the CONTROL length in the control buffer, never
+/// crosswise (seeded change C10-r7-2), for different lengths
+#[kani::proof]
+#[kani::unwind(7)]
+pub fn map_advanced_payload_and_control() {
+    let n = any_le(4);
+    let m = any_le(3);
+    let BufResult(r, (b, c)) = unsafe { BufResult(Ok((n, m, ())), (vec_cap(4, 0), vec_cap(3, 0))).map_advanced() };
+    assert!(matches!(r, Ok((x, y, ())) if x == n && y == m));
+    assert!(b.len() == n && c.len() == m, "3-tuple scalar form: payload/control lengths recorded in the wrong buffer");
+    let BufResult(r, (b, c)) = unsafe { BufResult(Ok((n, m, (), ())), (vec_cap(4, 0), vec_cap(3, 0))).map_advanced() };
+    assert!(b.len() == n && c.len() == m, "4-tuple scalar form: payload/control lengths recorded in the wrong buffer");
+    std::mem::forget(r);
+    let k = any_le(5);
+    let BufResult(r, (bs, c)) = unsafe { BufResult(Ok((k, m, ())), ([vec_cap(2, 0), vec_cap(3, 0)], vec_cap(3, 0))).map_vec_advanced() };
+    assert!(bs[0].len() + bs[1].len() == k && c.len() == m, "3-tuple vectored form");
+    std::mem::forget(r);
+    let BufResult(r, (bs, c)) = unsafe { BufResult(Ok((k, m, (), ())), ([vec_cap(2, 0), vec_cap(3, 0)], vec_cap(3, 0))).map_vec_advanced() };
+    assert!(bs[0].len() + bs[1].len() == k && c.len() == m, "4-tuple vectored form: payload/control lengths recorded in the wrong buffer");
+    std::mem::forget(r);
+}
